@@ -1218,14 +1218,14 @@ incoming_harness!(c09_tb_kiss_nts_v5, 4, {
 // extension fields: version transition table (C12), freshness / at most one measurement (C08), KISS
 // arms incl. the RATE step never exceeding max(limits.max, last poll) (C09, C10), T1..T4 mapping (C05).
 // ~5-8 min each; also listed as extra harnesses of the C08 / C09 / C10 units.
-incoming_harness!(c12_b_incoming_contract_plain_v3v4, 4, {
+incoming_harness!(c12_tb_incoming_contract_plain_v3v4, 4, {
     let p = any_pkt(false);
     let (before, after, _p, valid) = incoming_contract(false, p);
     kani::cover!(valid && matches!(before.version, ProtocolVersion::V4UpgradingToV5 { tries_left: 1 }) && after.version == ProtocolVersion::V4, "giving up the upgrade reachable");
     kani::cover!(valid && after.version == ProtocolVersion::UpgradedToV5, "upgrade reachable");
     kani::cover!(valid && matches!(after.version, ProtocolVersion::V4UpgradingToV5 { tries_left: 7 }), "countdown reachable");
 });
-incoming_harness!(c12_b_incoming_contract_plain_v5, 4, {
+incoming_harness!(c12_tb_incoming_contract_plain_v5, 4, {
     let p = any_pkt(true);
     let (before, after, _p, valid) = incoming_contract(false, p);
     kani::cover!(valid && before.version == ProtocolVersion::UpgradedToV5 && after.version == ProtocolVersion::V5, "confirmation reachable");
